@@ -323,7 +323,13 @@ def r07_4(ctx: Ctx, rep: Report) -> None:
     good = any(_re.findall(p, "ip access-group NAME in") == [("NAME", "in")] for p in pats)
     for_t = [n for g in scope for n in own_nodes(g.node) if isinstance(n, ast.For) and isinstance(n.target, ast.Tuple) and len(n.target.elts) == 2]
     order_ok = any([src(e) for e in lp.target.elts] == ["acl_name", "direction"] for lp in for_t)
-    if good and order_ok:
+    # the name is whatever stands between the keyword and the direction: ACL names carry '-', '.', ':' and the like (the
+    # section header reads any non-blank run), so the binding pattern must read the same names
+    witnesses = ["NAME", "EDGE-OUT", "MGMT.V2", "A_1", "v6:in/1"]
+    narrow = [w for w in witnesses if not any(_re.findall(p, f"ip access-group {w} in") == [(w, "in")] for p in pats)]
+    if good and order_ok and narrow:
+        rep.violation("ConfigParser._acls_on_interfaces", f"patterns {pats}", f"the binding pattern does not read the ACL names {narrow}: an ACL whose name carries such a character is extracted without its interfaces", where(f), inp=f"interface X / ip access-group {narrow[0]} in")
+    elif good and order_ok:
         rep.ok("ConfigParser._acls_on_interfaces: pattern", f"{pats[0]!r} yields (name, direction)", where=where(f))
     else:
         rep.violation("ConfigParser._acls_on_interfaces", f"patterns {pats}", "name and direction are not read as (first group, second group) of 'ip access-group NAME in|out'", where(f))
@@ -473,6 +479,103 @@ def group_test_is_per_address(ctx: Ctx, rep: Report, rid: str = "R07.9") -> None
             rep.violation("functions._add_addgr_to_aces", snippet(c, 60), verdict or "the answer of the group test is not used as a per-address filter", where(f, c), inp="permit ip object-group DEFINED object-group UNDEFINED: the defined group is not expanded")
 
 
+def every_reference_expanded(ctx: Ctx, rep: Report, rid: str = "R07.12") -> None:
+    """Every address of an entry that references a group gets that group's members, and every member of the group is
+    carried over: the addresses that are expanded are the entry's (source, destination) pair narrowed by filters only
+    (a dict or set keyed by the group name merges the two sides when both reference the same group), and a member is
+    left out only for what it IS (its class), never for a value it holds."""
+    from .common import loop_body_paths
+
+    rep.rule(rid)
+    top = ctx.func("functions._add_addgr_to_aces")
+    conv = ctx.func("functions._convert_ios_addr")
+    units = [top] + [g for g in ctx.cg.reach([top], include_weak=False) if g is not top and g is not conv and g.module == top.module and g.cls is None and g.name.startswith("_")]
+    # ---- the addresses that receive members
+    recv_loops = []
+    for n in own_nodes(top.node):
+        if isinstance(n, ast.For) and isinstance(n.target, ast.Name):
+            tv = n.target.id
+            if any(isinstance(x, ast.Call) and isinstance(x.func, ast.Attribute) and x.func.attr in ("append", "extend") and src(x.func.value).startswith(tv + ".") and "items" in src(x.func.value) for b in n.body for x in ast.walk(b)):
+                recv_loops.append(n)
+    rep.instance()
+    if not recv_loops:
+        rep.violation(top.qualname, "receiving loop", "no loop over the referencing addresses of an entry appends the members to them", where(top))
+    defs: Dict[str, List[ast.AST]] = {}
+    for n in own_nodes(top.node):
+        if isinstance(n, (ast.Assign, ast.AnnAssign)) and n.value is not None:
+            t = n.targets[0] if isinstance(n, ast.Assign) else n.target
+            if isinstance(t, ast.Name):
+                defs.setdefault(t.id, []).append(n.value)
+
+    visiting: Set[int] = set()
+
+    def narrowing_only(e: ast.AST, depth: int = 0) -> Optional[ast.AST]:
+        """None when `e` is the (src, dst) pair narrowed by filters; else the sub-expression that is something else."""
+        if depth > 12:
+            return e
+        if isinstance(e, ast.Name):
+            for d in defs.get(e.id, []):
+                if id(d) in visiting:
+                    continue  # x = [o for o in x if ...]: the earlier binding is judged on its own
+                visiting.add(id(d))
+                bad = narrowing_only(d, depth + 1)
+                visiting.discard(id(d))
+                if bad is not None:
+                    return bad
+            return None if e.id in defs else e
+        if isinstance(e, (ast.Tuple, ast.List)) and e.elts and all(isinstance(x, ast.Attribute) for x in e.elts):
+            return None
+        if isinstance(e, (ast.ListComp, ast.GeneratorExp)) and len(e.generators) == 1 and isinstance(e.elt, ast.Name) and src(e.elt) == src(e.generators[0].target):
+            return narrowing_only(e.generators[0].iter, depth + 1)
+        if isinstance(e, ast.Call) and isinstance(e.func, ast.Name) and e.func.id in ("list", "tuple") and len(e.args) == 1:
+            return narrowing_only(e.args[0], depth + 1)
+        if isinstance(e, ast.Call) and isinstance(e.func, ast.Name) and e.func.id == "filter" and len(e.args) == 2:
+            return narrowing_only(e.args[1], depth + 1)
+        return e
+
+    for lp in recv_loops:
+        rep.instance()
+        bad = narrowing_only(lp.iter)
+        if bad is None:
+            rep.ok(f"{top.qualname}: for {src(lp.target)} in {snippet(lp.iter, 30)}", "the entry's (source, destination) pair, narrowed by filters only", where=where(top, lp))
+        else:
+            rep.violation(top.qualname, f"for {src(lp.target)} in {snippet(lp.iter, 30)}: {snippet(bad, 60)}", "the addresses that receive members are not the entry's own (source, destination) pair narrowed by filters: an entry that references the same group on both sides gets the members on one side only (or an address is processed twice)", where(top, bad), inp="permit ip object-group G object-group G")
+    # ---- the members
+    n_member_loops = 0
+    for g in units:
+        cfg = ctx.cfg(g)
+        for lp in [x for x in cfg.live if x.kind == "for"]:
+            def nearest_for(x: ast.AST) -> Optional[ast.AST]:
+                p_ = getattr(x, "_parent", None)
+                while p_ is not None and not isinstance(p_, (ast.For, ast.FunctionDef)):
+                    p_ = getattr(p_, "_parent", None)
+                return p_
+
+            if not any(isinstance(x, ast.Call) and isinstance(x.func, ast.Attribute) and x.func.attr == "data" and nearest_for(x) is lp.ast for b in lp.ast.body for x in ast.walk(b)):
+                continue
+            n_member_loops += 1
+            rep.instance()
+            worst = None
+            for path in loop_body_paths(cfg, lp):
+                if path[-1][0] is not lp:
+                    continue
+                converted = any(nd.kind == "stmt" and nd.ast is not None and any(isinstance(x, ast.Call) and isinstance(x.func, ast.Attribute) and x.func.attr == "data" for x in ast.walk(nd.ast)) for nd, _ in path)
+                if converted:
+                    continue
+                atoms = [(nd.ast, lab) for nd, lab in path if nd.kind == "cond" and lab in ("T", "F")]
+                other = [a for a, _lab in atoms if not (isinstance(a, ast.Call) and src(a.func) == "isinstance")]
+                if other or not atoms:
+                    worst = (other[0] if other else lp.ast)
+                    break
+            if worst is not None:
+                rep.violation(g.qualname, f"member skipped under {snippet(worst, 50)}", "a member of the group is left out for a value it holds, not for its kind: the entry carries fewer networks than the group has (a non-contiguous member has no single network either)", where(g, worst), inp="nxos group with a member '10.3.0.10 0.0.255.0'")
+            else:
+                rep.ok(f"{g.qualname}: for {src(lp.ast.target)} in {snippet(lp.ast.iter, 30)}", "a member is passed over only for its class", where=where(g, lp.ast))
+    rep.instance()
+    if n_member_loops == 0:
+        rep.violation(top.qualname, "member loop", "no loop turns the members of the group into addresses", where(top))
+
+
 def run(ctx: Ctx, rep: Report, tier: str) -> None:
     r07_1(ctx, rep)
     r07_2(ctx, rep)
@@ -485,6 +588,7 @@ def run(ctx: Ctx, rep: Report, tier: str) -> None:
     normaliser_total(ctx, rep, rid="R07.7")
     interface_filter(ctx, rep)
     group_test_is_per_address(ctx, rep)
+    every_reference_expanded(ctx, rep)
     # R07.10 a member reaches the ACE through its rendered line: the kind tests single out exactly the network the
     # rendered keyword stands for (C01's classification guards); R07.11 entries are stored in line order (C12 R12.4)
     from .c01 import classification_guards
